@@ -229,6 +229,7 @@ type runner struct {
 	rng    *sim.Rng
 	out    outcome
 	crash  []sim.Outcome
+	retry  bool // the attempt is void (see run)
 }
 
 func (r *runner) violate(prop, what, detail, site string) {
@@ -254,7 +255,24 @@ func (r *runner) newParty(sess *protos.Session, id party.ID, label string) *sim.
 	return p
 }
 
+// run executes one scenario.  An equivocation scenario needs its two universes to be byte-identical before the
+// fork; some broadcasts of the library encode a Go map, so that their bytes are not a function of the state (the
+// map order is chosen at encoding time).  Such an attempt is discarded and repeated (the order is drawn afresh).
 func run(sc Scenario, seed string) (outcome, []sim.Event) {
+	for attempt := 0; ; attempt++ {
+		o, ev, again := runOnce(sc, seed)
+		if !again {
+			return o, ev
+		}
+		if attempt >= 24 {
+			o = outcome{ID: sc.ID, Applicable: false, Status: map[string]string{},
+				Why: "the two universes could not be kept byte-identical before the fork (map-order dependent encoding)"}
+			return o, nil
+		}
+	}
+}
+
+func runOnce(sc Scenario, seed string) (outcome, []sim.Event, bool) {
 	su := getSetup(sc.Proto, sc.N, sc.T, seed)
 	r := &runner{sc: sc, su: su, byz: party.ID(sc.Byz), rng: sim.NewRng(uint64(sc.Sched)*7919 + 17)}
 	r.out = outcome{ID: sc.ID, Applicable: true, Status: map[string]string{}}
@@ -286,6 +304,9 @@ func run(sc Scenario, seed string) (outcome, []sim.Event) {
 		r.relabel(sess, label)
 	default:
 		fatal("unknown scenario kind %q", sc.Kind)
+	}
+	if r.retry {
+		return r.out, nil, true
 	}
 
 	// ---- property-level predicates on the real outcome
@@ -414,7 +435,7 @@ func run(sc Scenario, seed string) (outcome, []sim.Event) {
 		}
 	}
 	r.out.Events = len(e.Events)
-	return r.out, e.Events
+	return r.out, e.Events, false
 }
 
 // ---------------------------------------------------------------------------------------------
@@ -515,6 +536,18 @@ func (r *runner) equiv(sess *protos.Session, label func(party.ID) string) {
 			emittedB = append(emittedB, m)
 		}
 		pre := int(m.RoundNumber) < r.sc.Round
+		if pre && inst == kB {
+			// universe B must still be a byte-identical copy of universe A
+			same := false
+			for _, a := range emittedA {
+				if a.RoundNumber == m.RoundNumber && a.Broadcast == m.Broadcast && a.To == m.To {
+					same = string(a.Data) == string(m.Data)
+				}
+			}
+			if !same {
+				r.retry = true
+			}
+		}
 		for _, j := range r.honest {
 			if !m.IsFor(j) {
 				continue
@@ -540,13 +573,35 @@ func (r *runner) equiv(sess *protos.Session, label func(party.ID) string) {
 	pb := r.newParty(sess, k, lb)
 	e.AddParty(kA, pa)
 	e.AddParty(kB, pb)
+	// The equivocator is never given a message of a round it has not reached: otherwise one call could finalize two
+	// rounds, and the fork (a change of random stream between two calls) could not be placed between them.
+	var held []*sim.Delivery
+	curRound := func() int { return e.PostOf(kA).Cur }
 	r.loop(func(d *sim.Delivery) bool {
+		if r.retry {
+			return true // void attempt: drain
+		}
 		if d.To != k {
 			if d.Msg.From == k && (d.Tag == "e1" || d.Tag == "e2") && int(d.Msg.RoundNumber) == r.sc.Round {
 				r.out.Reached = true
 			}
 			return false
 		}
+		if !forked && int(d.Msg.RoundNumber) > curRound() {
+			held = append(held, d)
+			return true
+		}
+		defer func() {
+			keep := held[:0]
+			for _, hd := range held {
+				if forked || int(hd.Msg.RoundNumber) <= curRound() {
+					e.Net.Pending = append(e.Net.Pending, hd)
+				} else {
+					keep = append(keep, hd)
+				}
+			}
+			held = keep
+		}()
 		// a message for the equivocator goes to both universes; the fork happens at the call in which
 		// universe A emits its round-`Round` messages
 		nA := len(emittedA)
@@ -758,12 +813,68 @@ func (r *runner) dealerCheat(sess *protos.Session, label func(party.ID) string) 
 		r.out.Why = "dealer cheat applies to FROST key generation / refresh"
 		return
 	}
+	if strings.HasPrefix(r.sc.Alt, "eval") {
+		r.evalPointCheat(sess, label, mk)
+		return
+	}
 	protos.FrostDealerCheat(sess, k, delta, []byte("sid"), mk)
 	for _, id := range su.ids {
 		e.AddParty(id, r.newParty(sess, id, label(id)))
 	}
 	r.loop(nil)
 	r.out.Reached = true
+}
+
+// evalPointCheat: the dealer sends one honest party the share of ANOTHER evaluation point of its (committed,
+// correct-degree) polynomial - the point 0 (its secret) or another party's point - with the recipient header
+// kept or emptied (the handler accepts an empty recipient).  Alt: eval0 | eval0-empty | evalk | evalk-empty.
+func (r *runner) evalPointCheat(sess *protos.Session, label func(party.ID) string, mk func() protocol.StartFunc) {
+	e := r.e
+	k := r.byz
+	spy := protos.FrostDealerSpy(sess, k, []byte("sid"), mk)
+	for _, id := range r.su.ids {
+		e.AddParty(id, r.newParty(sess, id, label(id)))
+	}
+	victim := r.honest[r.sc.Sched%len(r.honest)]
+	var other party.ID
+	for _, id := range r.honest {
+		if id != victim {
+			other = id
+		}
+	}
+	r.loop(func(d *sim.Delivery) bool {
+		m := d.Msg
+		if m.From != k || m.Broadcast || d.To != victim || m.RoundNumber != 3 || spy.F == nil || r.out.Reached {
+			return false
+		}
+		leaves, err := fault.Leaves(m.Data)
+		if err != nil {
+			return false
+		}
+		path := ""
+		for _, l := range leaves {
+			if l.Kind == "bytes" {
+				path = l.Path
+			}
+		}
+		val := spy.F.Constant()
+		if strings.HasPrefix(r.sc.Alt, "evalk") {
+			val = spy.F.Evaluate(other.Scalar(protos.Group))
+		}
+		share, _ := val.MarshalBinary()
+		data, err := fault.Mutate(m.Data, path, "set", share, r.rng)
+		if err != nil {
+			return false
+		}
+		c := sim.CloneMsg(m)
+		c.Data = data
+		if strings.HasSuffix(r.sc.Alt, "-empty") {
+			c.To = ""
+		}
+		r.out.Reached = true
+		r.deliver(victim, c, "ok")
+		return true
+	})
 }
 
 // presignCheat: one presigner deviates at state level (its proofs pass); every honest signer must single it out.
